@@ -82,8 +82,8 @@ func (eval Evaluator) Evaluate(ct *rlwe.Ciphertext, mcp Polynomial) (res *rlwe.C
 		}
 	}
 
-	// Avoids float errors
-	res.Scale = ct.Scale
+	// Avoids float errors (the polynomials are evaluated with the default scale as target scale)
+	res.Scale = params.DefaultScale()
 
 	return
 }
